@@ -120,18 +120,27 @@ def nexml_label_at_risk(label):
     return any((c in JSON_VISIBLE) or ord(c) > 126 or ord(c) < 32 for c in label)
 
 
-def gen_labels(rng, n, style, exclude="", xmlsafe=False, forbid=()):
-    """n labels, pairwise distinct up to letter case, no leading/trailing whitespace.
-    styles: simple | hostile | hostile-xmlsafe | oneline | nospace | singlespace | strict10"""
+LONG_LENGTHS = (11, 12, 30, 100)      # beyond the 10 columns of strict PHYLIP
+
+
+def gen_labels(rng, n, style, exclude="", xmlsafe=False, forbid=(), taken=(), long_p=0.05):
+    """n labels, pairwise distinct up to letter case (also from ``taken``), no leading/trailing whitespace.
+    styles: simple | hostile | hostile-xmlsafe | oneline | nospace | singlespace | blanks-no-underscore | strict10.
+    With probability ``long_p`` a label of every style but strict10 has 11 / 12 / 30 / 100 characters."""
     out, seen = [], set()
+    for t in taken:
+        seen.add(t.lower())
+        seen.add(t.upper())
     guard = 0
     while len(out) < n:
         guard += 1
         if guard > 10000:
             raise RuntimeError("label generator starved")
+        long_k = rng.choice(LONG_LENGTHS) if (style != "strict10" and rng.random() < long_p) else 0
         if style == "simple":
-            s = "t%d" % (len(out) + 1) if rng.random() < 0.5 else \
-                rng.choice("abcdeXYZ") + "".join(rng.choice("abcXYZ019.") for _ in range(rng.randint(0, 7)))
+            s = "t%d" % (len(out) + 1) if (rng.random() < 0.5 and not long_k) else \
+                rng.choice("abcdeXYZ") + "".join(rng.choice("abcXYZ019.") for _ in range(
+                    (long_k - 1) if long_k else rng.randint(0, 7)))
         elif style == "strict10":
             k = rng.choice([1, 2, 5, 9, 10, 10])
             alpha = "abcXYZ019._-+*/|#" + (" " if rng.random() < 0.4 else "")
@@ -143,15 +152,17 @@ def gen_labels(rng, n, style, exclude="", xmlsafe=False, forbid=()):
                 alpha = "".join(c for c in alpha if c not in JSON_VISIBLE and ord(c) < 127)
             if style in ("nospace",):
                 alpha = "".join(c for c in alpha if c not in " \t")
-            if style in ("singlespace",):
+            if style in ("singlespace", "blanks-no-underscore"):
                 alpha = alpha.replace("\t", "")
+            if style == "blanks-no-underscore":
+                alpha = alpha.replace("_", "") + "  "
             if xmlsafe:
                 alpha = "".join(c for c in alpha if c not in JSON_VISIBLE and ord(c) < 127)
             if exclude:
                 alpha = "".join(c for c in alpha if c not in exclude)
-            k = rng.randint(1, 9)
+            k = long_k or rng.randint(1, 9)
             s = "".join(rng.choice(alpha) for _ in range(k))
-            if style == "singlespace":
+            if style in ("singlespace", "blanks-no-underscore"):
                 s = re.sub(r"  +", " ", s)
         if not s or s.strip() != s or s in forbid:
             continue
@@ -169,7 +180,12 @@ CONT_SPECIALS = [0.0, 1.0, -1.0, 3.0, 1e-10, 1.5e+20, -2.25, 0.1, 123456.789, 5e
 
 
 def gen_value(rng):
+    """a float (dyadic, special, integral-valued, wide range), the int a user may well pass, or -0.0"""
     r = rng.random()
+    if r < 0.04:
+        return rng.randint(-1000, 1000)          # a Python int
+    if r < 0.06:
+        return -0.0
     if r < 0.3:
         return rng.randint(-64, 64) / 8.0
     if r < 0.5:
@@ -177,6 +193,22 @@ def gen_value(rng):
     if r < 0.6:
         return float(rng.randint(-5, 5))
     return rng.uniform(-10, 10) * 10 ** rng.randint(-12, 12)
+
+
+def make_ragged(rng, rows, allow_empty=False):
+    """rows cut to unequal lengths >= 1 (at least one keeps the full length)"""
+    if not rows:
+        return rows
+    keep = rng.randrange(len(rows))
+    out = []
+    for i, r in enumerate(rows):
+        if i == keep or not r:
+            out.append(list(r))
+        elif allow_empty and rng.random() < 0.12:
+            out.append([])
+        else:
+            out.append(list(r[:rng.randint(1, len(r))]))
+    return out
 
 
 def gen_rows(rng, dtype, nrows, ncols, style, alphabet=None):
@@ -266,10 +298,11 @@ NEXUS_DATATYPE = {"dna": "DNA", "rna": "RNA", "nucleotide": "NUCLEOTIDE", "prote
 
 
 def emit_nexus_char_block(rng, dtype, labels, rows, alphabet=None, simple=False, interleave=0, wrap=0,
-                          matchchar=False, title=None, link=None, comments=False):
+                          matchchar=False, title=None, link=None, comments=False, declare=True):
     """one CHARACTERS (or DATA) block.  interleave=k: pages of k columns; wrap=k (non-interleaved):
     sequences broken over lines of k cells; matchchar: later rows use '.' where they equal row 0
-    (only for cells that are plain symbols)."""
+    (only for cells that are plain symbols); declare=False: no MISSING= / GAP= terms (the rows may then use '?' only:
+    '?' is the format's default missing symbol, a gap symbol has no default)."""
     sep = " " if dtype == "continuous" else ""
     ncols = len(rows[0])
     toks = [[cell_text(c, dtype) for c in row] for row in rows]
@@ -291,7 +324,8 @@ def emit_nexus_char_block(rng, dtype, labels, rows, alphabet=None, simple=False,
         fund = STD_ALPHABETS[alphabet or "digits"][0]
         fmt.append('SYMBOLS="%s"' % (" ".join(fund) if rng.random() < 0.5 else fund))
     if dtype != "continuous":
-        fmt.append("MISSING=? GAP=-")
+        if declare:
+            fmt.append("MISSING=? GAP=-")
         if matchchar:
             fmt.append("MATCHCHAR=.")
     if interleave:
@@ -383,9 +417,15 @@ NEXML_TYPE = {"dna": "Dna", "rna": "Rna", "protein": "Protein", "restriction": "
               "standard": "Standard", "continuous": "Continuous"}
 
 
-def emit_nexml(rng, dtype, namespaces, matrices, seqs=False):
+def emit_nexml(rng, dtype, namespaces, matrices, seqs=False, layout=None):
     """namespaces: [(id, label|None, [taxon labels])]; matrices: [(otus id, label, alphabet, labels, rows)].
-    Explicit <char> columns (one per column) and, for discrete types, a <states> section."""
+    Explicit <char> columns (one per column; as many as the longest row) and, for discrete types, <states>.
+    layout (all optional; the document means the same matrix whatever the layout):
+      "shuffle_cells": <cell> elements of a row listed in random order (cell markup)
+      "scramble_ids":  <char> ids are not in column order (declaration order = column order, ids are arbitrary)
+      "two_states":    two <states> sets with the same content, the <char> columns refer to either
+      "shuffle_rows":  <row> elements in another order than the <otu> elements"""
+    layout = layout or {}
     out = ['<?xml version="1.0" encoding="UTF-8"?>',
            '<nex:nexml version="0.9" xmlns="http://www.nexml.org/2009" xmlns:nex="http://www.nexml.org/2009" '
            'xmlns:xsi="http://www.w3.org/2001/XMLSchema-instance" xmlns:xsd="http://www.w3.org/2001/XMLSchema#">']
@@ -401,53 +441,92 @@ def emit_nexml(rng, dtype, namespaces, matrices, seqs=False):
         out.append('  <characters id="%s"%s otus=%s xsi:type="nex:%s%s">' % (
             mid, (" label=%s" % quoteattr(mlabel)) if mlabel else "", quoteattr(nid), NEXML_TYPE[dtype],
             "Seqs" if seqs else "Cells"))
-        ncols = len(rows[0])
+        ncols = max(len(r) for r in rows) if rows else 0
         out.append('    <format>')
-        sid = {}
+        nsets = 2 if (layout.get("two_states") and dtype != "continuous") else 1
+        sids = []
         if dtype != "continuous":
             fund, gap, missing, amb, syn = type_symbols(dtype, alphabet)
-            out.append('      <states id="%s_s">' % mid)
-            k = 0
-            for s in fund + gap:
-                sid[s.upper()] = "%s_s%d" % (mid, k)
-                out.append('        <state id="%s" symbol=%s/>' % (sid[s.upper()], quoteattr(s)))
-                k += 1
-            poly = dict(STD_ALPHABETS[alphabet or "digits"][2]) if dtype == "standard" else {}
-            sets = [(a, amb[a]) for a in sorted(amb)]
-            if missing:
-                sets.append((missing, fund + gap))
-            for a, members in sets:
-                sid[a.upper()] = "%s_s%d" % (mid, k)
-                k += 1
-                tag = "polymorphic_state_set" if a in poly else "uncertain_state_set"
-                out.append('        <%s id="%s" symbol=%s>' % (tag, sid[a.upper()], quoteattr(a)))
-                for m in members:
-                    out.append('          <member state="%s"/>' % sid[m.upper()])
-                out.append('        </%s>' % tag)
-            out.append('      </states>')
+            for si in range(nsets):
+                sid = {}
+                sname = "%s_s%s" % (mid, "" if si == 0 else "b")
+                out.append('      <states id="%s">' % sname)
+                k = 0
+                for s in fund + gap:
+                    sid[s.upper()] = "%s_%d" % (sname, k)
+                    out.append('        <state id="%s" symbol=%s/>' % (sid[s.upper()], quoteattr(s)))
+                    k += 1
+                poly = dict(STD_ALPHABETS[alphabet or "digits"][2]) if dtype == "standard" else {}
+                sets = [(a, amb[a]) for a in sorted(amb)]
+                if missing:
+                    sets.append((missing, fund + gap))
+                for a, members in sets:
+                    sid[a.upper()] = "%s_%d" % (sname, k)
+                    k += 1
+                    tag = "polymorphic_state_set" if a in poly else "uncertain_state_set"
+                    out.append('        <%s id="%s" symbol=%s>' % (tag, sid[a.upper()], quoteattr(a)))
+                    for m in members:
+                        out.append('          <member state="%s"/>' % sid[m.upper()])
+                    out.append('        </%s>' % tag)
+                out.append('      </states>')
+                sids.append((sname, sid))
+        names = list(range(ncols))
+        if layout.get("scramble_ids"):
+            rng.shuffle(names)
+        cid = ["%s_c%d" % (mid, names[j]) for j in range(ncols)]       # id of column j
+        cset = [rng.randrange(nsets) for _ in range(ncols)]            # <states> set of column j
         for j in range(ncols):
             if dtype == "continuous":
-                out.append('      <char id="%s_c%d"/>' % (mid, j))
+                out.append('      <char id="%s"/>' % cid[j])
             else:
-                out.append('      <char id="%s_c%d" states="%s_s"/>' % (mid, j, mid))
+                out.append('      <char id="%s" states="%s"/>' % (cid[j], sids[cset[j]][0]))
         out.append('    </format>')
         out.append('    <matrix>')
-        for ri, (l, row) in enumerate(zip(labels, rows)):
+        rorder = list(range(len(labels)))
+        if layout.get("shuffle_rows"):
+            rng.shuffle(rorder)
+        for ri in rorder:
+            l, row = labels[ri], rows[ri]
             out.append('      <row id="%s_r%d" otu="%s">' % (mid, ri, tid[(nid, l)]))
             if seqs:
                 sep = " " if dtype in ("continuous", "standard") else ""
                 out.append('        <seq>%s</seq>' % sep.join(cell_text(c, dtype) for c in row))
             else:
-                order = list(range(ncols))
+                order = list(range(len(row)))
+                if layout.get("shuffle_cells"):
+                    rng.shuffle(order)
+                    layout.setdefault("_cell_orders", {})["%d/%s" % (mi, l)] = order
                 for j in order:
                     c = row[j]
-                    st = repr(float(c)) if dtype == "continuous" else sid[canonical(dtype, c, alphabet)]
-                    out.append('        <cell char="%s_c%d" state="%s"/>' % (mid, j, st))
+                    st = repr(float(c)) if dtype == "continuous" else sids[cset[j]][1][canonical(dtype, c, alphabet)]
+                    out.append('        <cell char="%s" state="%s"/>' % (cid[j], st))
             out.append('      </row>')
         out.append('    </matrix>')
         out.append('  </characters>')
     out.append('</nex:nexml>')
     return "\n".join(out) + "\n"
+
+
+def rows_in_document_order(model, cell_orders, mi=0):
+    """the model a reader builds that appends the <cell>s of a row as they come instead of placing them by char="""
+    out = []
+    for lab, cells in model:
+        order = (cell_orders or {}).get("%d/%s" % (mi, lab))
+        out.append([lab, [cells[j] for j in order] if order and len(order) == len(cells) else list(cells)])
+    return out
+
+
+def gen_nexml_layout(rng, seqs):
+    lay = {}
+    if rng.random() < 0.5:
+        lay["scramble_ids"] = True
+    if rng.random() < 0.3:
+        lay["two_states"] = True
+    if rng.random() < 0.3:
+        lay["shuffle_rows"] = True
+    if not seqs and rng.random() < 0.6:
+        lay["shuffle_cells"] = True
+    return lay
 
 
 # ----------------------------------------------------------------------------------------------
@@ -562,6 +641,44 @@ def compare_models(src, got, dtype, alphabet=None):
                 return ("cell", "%s->%s" % (category(dtype, x, alphabet), category(dtype, y, alphabet)),
                         {"row": k, "label": a[0], "col": j, "expected": x, "got": y})
     return None
+
+
+def accept_equivalent_multistates(exp, got, dtype, alphabet=None):
+    """A document token '{AG}' denotes the state "A or G"; whether the parser hands back the alphabet's named code
+    (R) or an equivalent state without a symbol is not something the property speaks about.  Where ``exp`` has a
+    named ambiguity code and ``got`` an unnamed ambiguous state with exactly its members, ``got`` is rewritten to the
+    code.  -> (got', number of cells rewritten)"""
+    if dtype == "continuous" or len(exp) != len(got):
+        return got, 0
+    amb = type_symbols(dtype, alphabet)[3]
+    members = dict((k.upper(), "".join(sorted(v.upper()))) for k, v in amb.items())
+    n, out = 0, []
+    for (el, er), (gl, gr) in zip(exp, got):
+        row = list(gr)
+        if len(er) == len(gr):
+            for j, (x, y) in enumerate(zip(er, gr)):
+                if isinstance(x, str) and isinstance(y, (list, tuple)) and y[0] == "amb" \
+                        and members.get(x) == "".join(sorted(y[1])):
+                    row[j] = x
+                    n += 1
+        out.append([gl, row])
+    return out, n
+
+
+def strip_leading_none(got, src):
+    """rows of ``got`` with their leading None cells removed where that makes the row as long as the source row
+    + the list of (row index, number of leading None cells) of the rows that were padded"""
+    out, padded = [], []
+    for i, (lab, cells) in enumerate(got):
+        k = 0
+        while k < len(cells) and cells[k] is None:
+            k += 1
+        if k and i < len(src) and len(cells) - k == len(src[i][1]):
+            out.append([lab, cells[k:]])
+            padded.append((i, k))
+        else:
+            out.append([lab, cells])
+    return out, padded
 
 
 def strip_none_padding(got):
